@@ -125,7 +125,10 @@ class Searches:
         elif method == PathSearchMethods.REGEX:
             try:
                 matcher = re.compile(needle)
-            except re.error as wrap_ex:
+            except (re.error, OverflowError, RecursionError, ValueError
+                    ) as wrap_ex:
+                # re.compile() also refuses oversized repetition counts,
+                # incompatible inline flags, and too deeply nested groups
                 raise YAMLPathException(
                     "Invalid Regular Expression, {}:  {}".format(
                         needle, wrap_ex), needle) from wrap_ex
